@@ -3,9 +3,9 @@ From Coq Require Import List NArith Bool Lia.
 Import ListNotations.
 
 Lemma pbox_ind' (P : pbox -> Prop) :
-  (forall v f t, P (PText v f t)) -> (forall ks, Forall P ks -> P (PBox ks)) -> forall b, P b.
+  (forall v f t, P (PText v f t)) -> (forall w ks, Forall P ks -> P (PBox w ks)) -> forall b, P b.
 Proof.
-  intros HT HB. fix IH 1. intros [v f t|ks]; [apply HT|]. apply HB.
+  intros HT HB. fix IH 1. intros [v f t|w ks]; [apply HT|]. apply HB.
   induction ks as [|k r IHr]; constructor; [apply IH|exact IHr].
 Qed.
 
@@ -20,7 +20,7 @@ Theorem drawn_once b :
   draw_events b =
   map (fun x => snd x) (filter (fun x => drawable (fst (fst x)) (snd (fst x)) (snd x)) (text_boxes b)).
 Proof.
-  induction b as [v f t|ks IH] using pbox_ind'.
+  induction b as [v f t|w ks IH] using pbox_ind'.
   - cbn. destruct (drawable v f t); reflexivity.
   - cbn [draw_events text_boxes]. induction IH as [|k r Hk Hr IHr]; [reflexivity|].
     cbn [flat_map]. rewrite filter_app, map_app, <- Hk, <- IHr. reflexivity.
@@ -30,3 +30,36 @@ Corollary drawn_once_count b :
   length (draw_events b) =
   length (filter (fun x => drawable (fst (fst x)) (snd (fst x)) (snd x)) (text_boxes b)).
 Proof. rewrite drawn_once. apply map_length. Qed.
+
+(* the visibility of a line / inline box / container never decides whether the texts inside it
+   are drawn: only each text box's own (computed) visibility does *)
+Theorem draw_ignores_container_visibility b : draw_events b = draw_events (show_boxes b).
+Proof.
+  induction b as [v f t|w ks IH] using pbox_ind'; [reflexivity|].
+  cbn [draw_events show_boxes]. induction IH as [|k r Hk Hr IHr]; [reflexivity|].
+  cbn [flat_map map]. rewrite <- Hk, IHr. reflexivity.
+Qed.
+
+Lemma vbox_ind' (P : vbox -> Prop) :
+  (forall t, P (VText t)) -> (forall s ks, Forall P ks -> P (VBox s ks)) -> forall b, P b.
+Proof.
+  intros HT HB. fix IH 1. intros [t|s ks]; [apply HT|]. apply HB.
+  induction ks as [|k r IHr]; constructor; [apply IH|exact IHr].
+Qed.
+
+(* with the cascade's inheritance: exactly the non-blank texts whose nearest ancestor setting
+   `visibility` sets it to visible reach the backend, once each, in document order -- also
+   those inside hidden ancestors *)
+Theorem visible_descendants_drawn b inh :
+  draw_events (resolve_visibility inh b) =
+  filter (fun t => negb (forallb is_space_rune t)) (visible_texts inh b).
+Proof.
+  revert inh. induction b as [t|s ks IH] using vbox_ind'; intros inh.
+  - cbn [resolve_visibility draw_events visible_texts]. unfold drawable.
+    destruct inh; cbn [andb filter]; [|reflexivity].
+    destruct (negb (forallb is_space_rune t)); reflexivity.
+  - cbn [resolve_visibility draw_events visible_texts].
+    set (v := match s with Some x => x | None => inh end). clearbody v.
+    induction IH as [|k r Hk Hr IHr]; [reflexivity|].
+    cbn [map flat_map]. rewrite filter_app, <- Hk, <- IHr. reflexivity.
+Qed.
